@@ -857,8 +857,7 @@ def _parse_probe(reqs, pend, case, label, ds, how, cls_name, root, sr):
 
 def _edit_in_place(it):
     """Read the list / array valued accessors of `it` (and of its descendants) and scribble over what they return.
-    Returns the number of values edited.  (TcoordContentItem.value is left alone: for several time points it IS the
-    data element's MultiValue.)"""
+    Returns the number of values edited."""
     n = 0
     vt = it.value_type.value
     if vt in ('SCOORD', 'SCOORD3D'):
@@ -877,6 +876,12 @@ def _edit_in_place(it):
         v = it.referenced_waveform_channels
         if isinstance(v, list) and v:
             v[0] = (99, 99)
+            n += 1
+    elif vt == 'TCOORD':
+        v = it.value
+        if hasattr(v, 'append') and len(v):
+            v[0] = v[-1]
+            v.append(v[0])
             n += 1
     if 'ContentSequence' in it:
         for c in it.ContentSequence:
